@@ -161,6 +161,11 @@ def oracle_lit(s, rec):
     return None
 
 
+def SHAPE_OK(p, s):
+    """the only text whose number position may be read as something else: no number at all in a bare posting (= omitted amount)"""
+    return p == "bare" and s == ""
+
+
 def oracle_pos(pos, s, rec):
     ok = wellformed(s) and representable(s)
     if rec.startswith("panic"):
@@ -198,6 +203,14 @@ def oracle_pos(pos, s, rec):
             # `<text> USD` was accepted with another commodity: the reader took a PREFIX of the text as the number and dropped the
             # rest (`12.50-`, `7-2`): an ill-formed number text must be rejected, not reinterpreted
             return "ill-formed number text %r accepted by Amount::try_from (a prefix was read, the rest dropped): %s" % (s, rec)
+    if rec.startswith("shape") and not ok and not SHAPE_OK(pos, s) and pos not in ("paren", "neg", "factor") and \
+            all(c in "0123456789,.-" for c in s):
+        # (inside parentheses `1-5` is a subtraction, not a literal: those three positions are left to the model comparison; a text
+        # with other characters is a number followed by a commodity)
+        # the text was ACCEPTED, as something other than the construct it was written as: a number text that is not a well-formed
+        # literal must make the reader fail, not be re-read as another kind of line (`format 1.000,00 EUR` kept as an unknown
+        # sub-directive, the declared precision silently gone)
+        return "ill-formed number text %r is accepted and read as something else: %s" % (s, rec[:160])
     if rec.startswith("ok "):
         base, _, fmt = rec.partition(" fmt=")
         msg = oracle_lit(s, base)
@@ -388,7 +401,7 @@ def run(chk):
             else:
                 same = b == a
         else:
-            same = (a.partition(" fmt=")[0] == b) or (b == "parse-err" and a.startswith("shape") and not p.startswith("tryfrom"))
+            same = (a.partition(" fmt=")[0] == b) or (b == "parse-err" and a.startswith("shape") and SHAPE_OK(p, s))
         if not same:
             chk.disagreements += 1
             chk.violation("model and real parser disagree on literal %r as %s (property oracle holds)" % (s, p),
